@@ -309,7 +309,8 @@ _sanitize("dict-graph,meta", "C06Gel",
           literal_bounds=True)
 _sanitize("dict-graph,no-meta", "C06GelNoMeta",
           [("meta-defaults", "len(result['meta']['merges']) == 0 and len(result['meta']['splits']) == 0 and "
-            "len(result['meta']['promotions']) == 0 and result['meta']['concept_nodes_count'] == 0")], DEAD)
+            "len(result['meta']['promotions']) == 0 and result['meta']['concept_nodes_count'] == 0")],
+          DEAD + ["meta_out[k] = v"])      # no meta section: no list to carry over
 
 # ---------------------------------------------------------------- store export / import (weights fallback)
 # Input type invariant (stated): the store has no export_state/import_state hook (the weights-map fallback is the
